@@ -11,6 +11,7 @@ let parse_label (t : string) : label =
   | _ ->
     (match t.[0] with
      | 'A' -> Accept (num 1 n)
+     | 'T' when t.[n - 1] = '!' || t.[n - 1] = '?' -> Conn (num 1 (n - 1), RTBroken)
      | 'W' | 'T' | 'P' ->
          let m = (match t.[n - 1] with '+' -> true | '-' -> false | _ -> failwith ("bad mark " ^ t)) in
          Conn (num 1 (n - 1), (match t.[0] with 'W' -> WriteHead m | 'T' -> RTEnd m | _ -> RespStatus m))
@@ -58,10 +59,6 @@ let judge _name ins outs =
   let flags = List.filter is_flag rest in
   let vtoks = List.filter (fun t -> not (is_flag t)) rest in
   if List.mem "ENVFAIL" trtoks || List.mem "ENVFAIL" flags then VDisagree "environment-failure(listen/dial)"
-  else if List.exists (fun t -> String.length t > 1 && t.[0] = 'T' && t.[String.length t - 1] = '!') trtoks then
-    VPropfail ("request_body_delivered",
-               "the origin did not receive the complete byte-identical request body of an exchange whose upload was still in progress when shutdown was requested: "
-               ^ String.concat "_" trtoks)
   else if List.mem "PANIC" flags then VPropfail ("no_panic", "harness recovered a panic")
   else if List.exists (fun f -> String.length f > 6 && String.sub f 0 6 = "PANIC:") flags then
     VPropfail ("no_panic", "the proxy panicked while Close raced accepts: " ^ String.concat " " flags)
@@ -78,6 +75,7 @@ let judge _name ins outs =
     let views = List.mapi (parse_view tr) vtoks in
     if not (c07_ok tr views) then begin
       let c = int_of_nat (c07_failing_clause tr views) in
+      let body_lost = List.exists (fun t -> String.length t > 1 && t.[0] = 'T' && t.[String.length t - 1] = '!') trtoks in
       let detail =
         if c = 6 then begin
           (* which accepted connection outlived Close, and was it accepted
@@ -100,7 +98,13 @@ let judge _name ins outs =
         end else if c = 10 then
           "trace=" ^ String.concat "_" trtoks ^ " views=" ^ String.concat "_" vtoks
         else "trace=" ^ String.concat "_" trtoks in
-      VPropfail (clause_name c, detail)
+      if c = 14 && body_lost then
+        VPropfail ("request_body_delivered",
+                   "the origin did not receive the complete byte-identical request body of an exchange whose upload was still in progress when shutdown was requested: " ^ detail)
+      else if c = 14 then
+        VPropfail ("origin_response_delivered",
+                   "the round trip of an exchange whose request modifier had started failed although the origin is reachable; the client got a proxy-made 502 in place of the origin's response: " ^ detail)
+      else VPropfail (clause_name c, detail)
     end else if not (accepts tr) then
       VDisagree (Printf.sprintf "trace-not-admitted-by-LTS at-event=%s trace=%s"
                    (match rejected_at tr with Some k -> string_of_int (int_of_nat k) | None -> "?")
